@@ -132,6 +132,30 @@ def run(rep, model, tier, seed, broken=()):
             if len(pairs) < 10:
                 pairs.append((req, rp))
         rep.coverage["correspondence"]["cmake -P + recording stub vs Model.CMakeLang.call"] = nstub
+        # (a') failures that are not an exit status: the executable cannot be started, or is killed by a
+        # signal.  The model's launch is fatal-on-failure (theorem C19_failure_is_fatal), so the CMake call
+        # must fail fatally and the configure step must not continue.
+        killer = os.path.join(wd, "killer.sh")
+        with open(killer, "w") as f:
+            f.write("#!/bin/sh\nkill -9 $$\n")
+        os.chmod(killer, os.stat(killer).st_mode | stat.S_IEXEC)
+        noexec = os.path.join(wd, "noexec.sh")
+        with open(noexec, "w") as f:
+            f.write("#!/bin/sh\nexit 0\n")
+        os.chmod(noexec, 0o644)
+        for label, exe in (("missing executable", os.path.join(wd, "removed", "bin", "cminx")),
+                           ("killed by signal", killer), ("not executable", noexec)):
+            for inp in (d, fpath):
+                actuals = [inp, os.path.join(wd, "out")]
+                rc, argv, continued, err = run_cmake_stub(wd, exe, actuals, 0)
+                rep.count_case(json.dumps([label, inp]), True)
+                rep.dist("abnormal_failure_runs")
+                if rc == 0 or continued:
+                    nbad += 1
+                    if nbad <= 3:
+                        rep.violation(dict(kind="cminx_gen_rst: CMinx could not run (" + label + ") but the CMake call "
+                                           "did not fail fatally", diff=dict(cmake_rc=rc, continued=continued, err=err),
+                                           actuals=actuals, executable=exe))
         # (b) end to end
         cli = os.path.join(wd, "cminx_cli.sh")
         with open(cli, "w") as f:
